@@ -19,6 +19,9 @@ var boundaryPool = []int64{math.MinInt64, math.MinInt64 + 1, math.MinInt64 + 2, 
 
 // gen: reset, then a short history of add/sub with interleaved queries.
 func gen(r *vu.Rng, i int) []string {
+	if r.Chance(1, 24) {
+		return genMany(r)
+	}
 	mode := r.Intn(20)
 	var pool []int64
 	switch {
@@ -88,6 +91,99 @@ func gen(r *vu.Rng, i int) []string {
 	return ops
 }
 
+// genMany builds sets with MANY disjoint ranges (around and far beyond any small-set threshold an
+// implementation might special-case: 8/9, 16/17, 32/33, 64/65, 128), in shuffled order, optionally
+// thins/splits them with subs, and then asks every query op at start-1, start, end-1, end of EVERY
+// constructed range and inside every gap.
+func genMany(r *vu.Rng) []string {
+	k := []int{7, 8, 9, 10, 15, 16, 17, 31, 32, 33, 63, 64, 65, 100, 128}[r.Intn(15)]
+	if r.Chance(1, 3) {
+		k = r.Range(5, 70)
+	}
+	base := int64(r.Range(-50, 50))
+	switch r.Intn(6) {
+	case 0:
+		base = math.MinInt64 + int64(r.Intn(3))
+	case 1:
+		base = math.MaxInt64 - int64(k)*12 - int64(r.Intn(3))
+	case 2:
+		base = int64(r.Uint64()>>2) - 1<<61
+	}
+	type rg struct{ a, b int64 }
+	rs := make([]rg, k)
+	pos := base
+	for j := range rs {
+		w := int64(r.Range(1, 5))
+		rs[j] = rg{pos, pos + w}
+		pos += w + int64(r.Range(1, 4)) // gap >= 1: never adjacent
+	}
+	ops := []string{"reset"}
+	order := make([]int, k)
+	for j := range order {
+		order[j] = j
+	}
+	switch r.Intn(3) {
+	case 0: // ascending
+	case 1: // descending
+		for a, b := 0, k-1; a < b; a, b = a+1, b-1 {
+			order[a], order[b] = order[b], order[a]
+		}
+	default: // shuffled
+		for j := k - 1; j > 0; j-- {
+			x := r.Intn(j + 1)
+			order[j], order[x] = order[x], order[j]
+		}
+	}
+	queryAt := func(v int64) {
+		ops = append(ops, fmt.Sprintf("contains %d", v), fmt.Sprintf("rc %d", v))
+	}
+	for n, j := range order {
+		ops = append(ops, fmt.Sprintf("add %d %d", rs[j].a, rs[j].b))
+		if r.Chance(1, 6) { // interleaved queries while the set grows through the thresholds
+			q := rs[order[r.Intn(n+1)]]
+			queryAt(q.a)
+			queryAt(q.b - 1)
+		}
+	}
+	// optional second phase: split wide ranges, remove some, bridge some gaps
+	if r.Bool() {
+		m := r.Range(1, k/2+1)
+		for n := 0; n < m; n++ {
+			j := r.Intn(k)
+			switch r.Intn(4) {
+			case 0: // remove entirely
+				ops = append(ops, fmt.Sprintf("sub %d %d", rs[j].a, rs[j].b))
+			case 1: // split (when wide enough) or trim
+				ops = append(ops, fmt.Sprintf("sub %d %d", rs[j].a+1, rs[j].b-1))
+			case 2: // bridge the gap to the next range
+				if j+1 < k {
+					ops = append(ops, fmt.Sprintf("add %d %d", rs[j].b, rs[j+1].a))
+				}
+			default: // cut across several ranges
+				j2 := min(k-1, j+r.Intn(4))
+				ops = append(ops, fmt.Sprintf("sub %d %d", rs[j].a+int64(r.Intn(2)), rs[j2].b-int64(r.Intn(2))))
+			}
+		}
+	}
+	ops = append(ops, "q", "isrange-cur")
+	for j := range rs {
+		for _, v := range []int64{rs[j].a - 1, rs[j].a, rs[j].b - 1, rs[j].b} {
+			if (v == rs[j].a-1 && rs[j].a == math.MinInt64) || v < rs[j].a-1 {
+				continue
+			}
+			queryAt(v)
+		}
+		if j+1 < k && rs[j+1].a-rs[j].b > 1 {
+			queryAt(rs[j].b + (rs[j+1].a-rs[j].b)/2)
+		}
+		if r.Chance(1, 8) {
+			ops = append(ops, fmt.Sprintf("isrange %d %d", rs[j].a, rs[j].b))
+		}
+	}
+	ops = append(ops, fmt.Sprintf("isrange %d %d", rs[0].a, rs[k-1].b), "q")
+	return ops
+}
+
 type hop struct {
 	add  bool
 	a, b int64
@@ -132,15 +228,19 @@ func runsOf(h []hop) ([][2]int64, []int64, bool) {
 		}
 	}
 	sort.Slice(E, func(i, j int) bool { return E[i] < E[j] })
+	in := make([]bool, len(E))
+	for i, e := range E {
+		in[i] = ref(h, e)
+	}
 	var runs [][2]int64
 	for i := 0; i < len(E); i++ {
 		e := E[i]
-		if !ref(h, e) || (e != math.MinInt64 && ref(h, e-1)) {
+		if !in[i] || (e != math.MinInt64 && ref(h, e-1)) {
 			continue
 		}
 		found := false
 		for j := i + 1; j < len(E); j++ {
-			if !ref(h, E[j]) {
+			if !in[j] {
 				runs = append(runs, [2]int64{e, E[j]})
 				found = true
 				break
@@ -157,13 +257,24 @@ func exec(ops []string, o *vu.Out) {
 	var s quic.VerifRangeset
 	var hist []hop
 	outOfContract := false // an op with start > end was seen: the oracle stops
+	nfail := 0
+	var curRuns [][2]int64 // maximal runs of the reference set after the last mutation
 	fail := func(desc string) {
 		if outOfContract {
 			return
 		}
+		if nfail++; nfail > 8 {
+			return
+		}
+		if len(desc) > 600 {
+			desc = desc[:600] + "…"
+		}
 		o.Fail("", desc)
 	}
-	checkAll := func(op string) {
+	// full: also sweep every critical point (every op endpoint and its neighbours) with every
+	// point query; done after every op of short histories, every 8th op and after the last
+	// mutation of long ones (the cheap part runs after every op).
+	checkAll := func(op string, full bool) {
 		if outOfContract {
 			return
 		}
@@ -173,6 +284,7 @@ func exec(ops []string, o *vu.Out) {
 			fail("oracle: unterminated run in reference")
 			return
 		}
+		curRuns = runs
 		// well-formedness, stated directly
 		for i, r := range got {
 			if r[0] >= r[1] {
@@ -184,6 +296,9 @@ func exec(ops []string, o *vu.Out) {
 		}
 		// membership at every critical point
 		for _, e := range E {
+			if !full {
+				break
+			}
 			for d := int64(-1); d <= 1; d++ {
 				p := e + d
 				if (d < 0 && e == math.MinInt64) || (d > 0 && e == math.MaxInt64) {
@@ -231,7 +346,13 @@ func exec(ops []string, o *vu.Out) {
 				s.Min(), s.Max(), s.End(), s.NumRanges(), s.Size(), wmin, wmax, wend, len(runs), wsize))
 		}
 	}
-	for _, op := range ops {
+	lastMut := -1
+	for i, op := range ops {
+		if strings.HasPrefix(op, "add ") || strings.HasPrefix(op, "sub ") {
+			lastMut = i
+		}
+	}
+	for opIdx, op := range ops {
 		t := strings.Fields(op)
 		if len(t) == 0 {
 			o.Op(op, "bad-op")
@@ -243,6 +364,8 @@ func exec(ops []string, o *vu.Out) {
 			s = quic.VerifRangeset{}
 			hist = nil
 			outOfContract = false
+			nfail = 0
+			curRuns = nil
 			o.Op(op, "ok")
 		case (t[0] == "add" || t[0] == "sub") && len(t) == 3:
 			a, b := vu.Atoi64(t[1]), vu.Atoi64(t[2])
@@ -283,7 +406,13 @@ func exec(ops []string, o *vu.Out) {
 			default:
 				o.Stat("effect:" + t[0] + ":same-len")
 			}
-			checkAll(op)
+			checkAll(op, len(hist) <= 16 || len(hist)%8 == 0 || opIdx == lastMut)
+			if n := len(s.Ranges()); n > 8 {
+				o.Stat("ranges:>8")
+				if n > 32 {
+					o.Stat("ranges:>32")
+				}
+			}
 		case t[0] == "contains" && len(t) == 2:
 			v := vu.Atoi64(t[1])
 			c := s.Contains(v)
@@ -297,6 +426,17 @@ func exec(ops []string, o *vu.Out) {
 			o.Op(op, fmt.Sprintf("ok %d %d", a, b))
 			if in := ref(hist, v); (in && !(a <= v && v < b)) || (!in && (a != 0 || b != 0)) {
 				fail(fmt.Sprintf("rangeContaining(%d) = %d:%d but membership is %v", v, a, b, in))
+			}
+			if !outOfContract {
+				wa, wb := int64(0), int64(0)
+				for _, r := range curRuns {
+					if r[0] <= v && v < r[1] {
+						wa, wb = r[0], r[1]
+					}
+				}
+				if a != wa || b != wb {
+					fail(fmt.Sprintf("rangeContaining(%d) = %d:%d, maximal run of the set is %d:%d", v, a, b, wa, wb))
+				}
 			}
 		case t[0] == "q" && len(t) == 1:
 			o.Op(op, fmt.Sprintf("ok %d %d %d %d %d", s.Min(), s.Max(), s.End(), s.NumRanges(), s.Size()))
